@@ -64,19 +64,31 @@ def build_driver(log=None):
     return time.time() - t
 
 
-def run_driver(jobs, timeout=600):
-    """Run jobs (list of dicts) through one driver process; returns list of results."""
+def run_driver(jobs, timeout=None, per_job=0.5, base=20):
+    """Run jobs (list of dicts) through one driver process; returns list of results.
+    A driver that dies or hangs is bisected down to the culprit job, which is reported as
+    {'crash': True} / {'hang': True} (data for the checks, never silently dropped)."""
     if not jobs:
         return []
+    tmo = timeout or (base + per_job * len(jobs))
     inp = '\n'.join(json.dumps(j) for j in jobs) + '\n'
-    p = subprocess.run([DRIVER], input=inp, capture_output=True, text=True, timeout=timeout)
+    try:
+        p = subprocess.run([DRIVER], input=inp, capture_output=True, text=True, timeout=tmo)
+    except subprocess.TimeoutExpired:
+        if len(jobs) == 1:
+            return [{'hang': True, 'timeout_s': tmo}]
+        mid = len(jobs) // 2
+        return run_driver(jobs[:mid], timeout, per_job, base) + run_driver(jobs[mid:], timeout, per_job, base)
     lines = [l for l in p.stdout.split('\n') if l.strip()]
+    if lines and len(lines) < len(jobs) and '"_restart":true' in lines[-1]:
+        # the driver abandoned a hung solver thread and stopped: continue in a fresh process
+        return [json.loads(l) for l in lines] + run_driver(jobs[len(lines):], timeout, per_job, base)
     if len(lines) != len(jobs):
         # the driver died (abort / stack overflow): find the culprit by bisection
         if len(jobs) == 1:
             return [{'crash': True, 'returncode': p.returncode, 'stderr': p.stderr[-500:]}]
         mid = len(jobs) // 2
-        return run_driver(jobs[:mid], timeout) + run_driver(jobs[mid:], timeout)
+        return run_driver(jobs[:mid], timeout, per_job, base) + run_driver(jobs[mid:], timeout, per_job, base)
     return [json.loads(l) for l in lines]
 
 
